@@ -92,6 +92,10 @@ func (l line) distance(p Vec) float64 {
 	// https://mathworld.wolfram.com/Point-LineDistance3-Dimensional.html
 	p1 := l[0]
 	p2 := l[1]
+	if p1 == p2 {
+		// The line is a single point.
+		return math.Hypot(p.X-p1.X, p.Y-p1.Y)
+	}
 	num := math.Abs((p2.X-p1.X)*(p1.Y-p.Y) - (p1.X-p.X)*(p2.Y-p1.Y))
 	return num / math.Hypot(p2.X-p1.X, p2.Y-p1.Y)
 }
